@@ -117,10 +117,34 @@ package parser
 
 // ---- format() (C07, C17, C18) ----
 
-//@ func (fc *FontConfig) getWordPixelWidth
+// pixel widths (C07): a table lookup with the documented fallbacks; a word is the sum of its control codes and of the
+// runes that remain when the codes are taken out
+//@ func (fc *FontConfig) getWidth
+//@   pure
+//@   ensures [C07:width] result == GlyphW(fc, value, fontID)
+//@ end
+//@ func (fc *FontConfig) getRunePixelWidth
+//@   pure
+//@   ensures [C07:rune-width] result == RuneW(fc, r, fontID)
+//@ end
+//@ func (fc *FontConfig) getControlCodePixelWidth
+//@   pure
+//@   ensures [C07:code-width] result == (fontID == "TEST" ? 100 : GlyphW(fc, code, fontID))
+//@ end
+// the regular expression that finds control codes is outside the verifier's reach (A-regexp): what it strips and
+// the summed width of what it finds are named, not defined
+//@ func (fc *FontConfig) processControlCodes
 //@   trusted
 //@   pure
+//@   ensures [C07:codes] result0 == StripCodes(word) && result1 == CodesW(fc, word, fontID)
+//@ end
+//@ func (fc *FontConfig) getWordPixelWidth
+//@   pure
+//@   use RunesWBase(fc, fontID, StripCodes(word))
 //@   ensures [C07:wordw] result == WordW(fc, word, fontID)
+//@   loop 1
+//@     use RunesWStep(fc, fontID, StripCodes(old(word)), $pos)
+//@     invariant [C07:wordw-inv] word == StripCodes(old(word)) && 0 <= $pos && $pos <= slen(word) && wordWidth == CodesW(fc, old(word), fontID) + RunesW(fc, fontID, StripCodes(old(word)), $pos)
 //@ end
 
 //@ func (fc *FontConfig) getNextWord
